@@ -63,3 +63,57 @@ def apply_T4(net, f):
 
 T4_FLAGS = ["b0", "b1", "b2", "b3", "l0", "l1", "l2", "t0", "w0", "e0", "e1", "g0", "g1", "s0", "s1", "s2", "s3",
             "s4", "z0"]
+
+
+def char_table(ids_steps, base_vk=6.0, base_vkr=1.0):
+    """trafo_characteristic_table with one distinct row per (id, step): ratio 1+0.02*step+0.003*id, vk/vkr distinct."""
+    import numpy as np
+    import pandas as pd
+    rows = []
+    for cid, steps in ids_steps.items():
+        for st in steps:
+            rows.append({"id_characteristic": cid, "step": st, "voltage_ratio": 1 + 0.02 * st + 0.003 * cid,
+                         "angle_deg": 0.5 * st + 0.1 * cid, "vk_percent": base_vk + 0.3 * st + 0.7 * cid,
+                         "vkr_percent": base_vkr + 0.05 * st + 0.1 * cid, "vk_hv_percent": np.nan,
+                         "vkr_hv_percent": np.nan, "vk_mv_percent": np.nan, "vkr_mv_percent": np.nan,
+                         "vk_lv_percent": np.nan, "vkr_lv_percent": np.nan})
+    return pd.DataFrame(rows)
+
+
+def build_calc_net(feats=()):
+    """Net for C08/C09: 3 x 20 kV buses in a ring + 0.4 kV bus; data for OPF, short-circuit (3ph/2ph/1ph) and 3ph pf.
+    feats: "dcline" (dcline b1->b2), "taptable" (trafo uses a characteristic table at tap_pos 1),
+    "usergens" (two PV gens with short-circuit data)."""
+    import numpy as np
+    import pandapower as pp
+    net = pp.create_empty_network()
+    b = [pp.create_bus(net, 20.0, min_vm_pu=0.9, max_vm_pu=1.1) for _ in range(3)]
+    b.append(pp.create_bus(net, 0.4, min_vm_pu=0.9, max_vm_pu=1.1))
+    pp.create_ext_grid(net, b[0], vm_pu=1.01, s_sc_max_mva=500.0, s_sc_min_mva=300.0, rx_max=0.1, rx_min=0.1,
+                       x0x_max=1.0, r0x0_max=0.1, min_p_mw=-50, max_p_mw=50, min_q_mvar=-50, max_q_mvar=50)
+    for a, c in ((0, 1), (1, 2), (0, 2)):
+        pp.create_line_from_parameters(net, b[a], b[c], 2.0, 0.12, 0.11, 10.0, 0.5, r0_ohm_per_km=0.4,
+                                       x0_ohm_per_km=0.4, c0_nf_per_km=5.0, endtemp_degree=80.0, max_loading_percent=100.)
+    pp.create_transformer_from_parameters(
+        net, b[2], b[3], sn_mva=1.0, vn_hv_kv=20.0, vn_lv_kv=0.4, vkr_percent=1.0, vk_percent=6.0, pfe_kw=1.0,
+        i0_percent=0.1, shift_degree=0.0, vector_group="Dyn", vk0_percent=6.0, vkr0_percent=1.0, mag0_percent=100.0,
+        mag0_rx=0.0, si0_hv_partial=0.9, tap_side="hv", tap_neutral=0, tap_min=-2, tap_max=2, tap_step_percent=2.0,
+        tap_pos=1, tap_changer_type="Ratio", max_loading_percent=100.)
+    pp.create_load(net, b[3], 0.2, 0.05)
+    pp.create_load(net, b[1], 1.0, 0.2)
+    pp.create_poly_cost(net, 0, "ext_grid", cp1_eur_per_mw=10.0)
+    if "usergens" in feats:
+        for k, bus in enumerate((b[1], b[2])):
+            g = pp.create_gen(net, bus, p_mw=0.3, vm_pu=1.0, vn_kv=20.0, xdss_pu=0.2, rdss_ohm=0.05, cos_phi=0.9,
+                              sn_mva=2.0, pg_percent=0.0, min_p_mw=0.0, max_p_mw=1.0, min_q_mvar=-1.0, max_q_mvar=1.0,
+                              controllable=True, name="user_gen_%d" % k)
+            pp.create_poly_cost(net, g, "gen", cp1_eur_per_mw=12.0 + k)
+    if "dcline" in feats:
+        pp.create_dcline(net, b[1], b[2], p_mw=0.1, loss_percent=1.0, loss_mw=0.001, vm_from_pu=1.0, vm_to_pu=1.0,
+                         max_p_mw=0.5, min_q_from_mvar=-0.5, max_q_from_mvar=0.5, min_q_to_mvar=-0.5, max_q_to_mvar=0.5)
+    if "taptable" in feats:
+        net["trafo_characteristic_table"] = char_table({0: [-2, -1, 0, 1, 2]})
+        net.trafo["id_characteristic_table"] = net.trafo["id_characteristic_table"].astype("Int64")
+        net.trafo.loc[0, "id_characteristic_table"] = 0
+        net.trafo["tap_dependency_table"] = True
+    return net
